@@ -1,8 +1,10 @@
 /-
 C10 for GAB.  Statements about the generated functions (`Gen.R.GAB_*` = modelling/gab.py now).
 GAB is BET in the reduced variable `u = K p`.  Validity range of the property: below the pole, `K p < 1`;
-parameters strictly inside the bounds `n_m, C > 0`, `0 < K` (`K < 1` is not needed); the inverse needs
-`C ≠ 1` (at `C = 1` the quadratic degenerates, `x = 0`, and the code divides by zero).
+parameters strictly inside the bounds `n_m, C > 0`, `0 < K` (`K < 1` is not needed).  Since the repair of finding S51-C10a/b the
+inverse is computed in the cancellation-free form of the same root (`Lemmas/Quad.lean` `stable_minus_eq`), which also covers
+`C = 1` (the quadratic degenerates, `x = 0`; the earlier form divided by zero and returned the pressure 0 for every loading:
+`Props/C10/Findings.lean`), so `gab_pressure_loading` no longer needs `C ≠ 1`.
 -/
 import PgVerif.Tie.Models
 import PgVerif.Lemmas.Quad
@@ -18,8 +20,8 @@ theorem gab_pos (nm C K p : ℝ) (hnm : 0 < nm) (hC : 0 < C) (hK : 0 < K) (hp : 
   have h2 : 0 < 1 - K * p + C * (K * p) := by positivity
   positivity
 
-/-- pressure(loading(p)) = p below the pole -/
-theorem gab_pressure_loading (nm C K p : ℝ) (hnm : 0 < nm) (hC : 0 < C) (hK : 0 < K) (hC1 : C ≠ 1)
+/-- pressure(loading(p)) = p below the pole, for EVERY `C > 0` (`C = 1` included) -/
+theorem gab_pressure_loading (nm C K p : ℝ) (hnm : 0 < nm) (hC : 0 < C) (hK : 0 < K)
     (hp : 0 < p) (hpole : K * p < 1) :
     GAB_pressure nm C K (GAB_loading nm C K p) = p := by
   have hn := gab_pos nm C K p hnm hC hK hp hpole
@@ -27,8 +29,6 @@ theorem gab_pressure_loading (nm C K p : ℝ) (hnm : 0 < nm) (hC : 0 < C) (hK : 
   set n := gab nm C K p with hndef
   have h1 : 0 < 1 - K * p := by linarith
   have h2 : 0 < 1 - K * p + C * (K * p) := by positivity
-  have h1C : 1 - C ≠ 0 := sub_ne_zero.mpr (Ne.symm hC1)
-  have hx : n * (1 - C) * K ^ 2 ≠ 0 := by positivity
   -- the defining relation n (1 - K p)(1 - K p + C K p) = nm C K p
   have hrel : n * ((1 - K * p) * (1 - K * p + C * (K * p))) = nm * C * (K * p) := by
     rw [hndef]; unfold gab
@@ -36,7 +36,20 @@ theorem gab_pressure_loading (nm C K p : ℝ) (hnm : 0 < nm) (hC : 0 < C) (hK : 
     rw [div_mul_cancel₀ _ hd]
   unfold GAB_pressure nanToZero
   simp only []
-  apply PgVerif.Quad.root_minus' (n * (1 - C) * K ^ 2) _ n p (1 / ((1 - C) * K ^ 2 * p)) hx
+  by_cases hC1 : C = 1
+  · -- the degenerate case: x = 0, the equation is y q + n = 0 with y = -(n + nm) K < 0
+    have hx0 : n * (1 - C) * K ^ 2 = 0 := by rw [hC1]; ring
+    have hy : (n * (C - 2) - nm * C) * K < 0 := by
+      rw [hC1]
+      have : n * (1 - 2) - nm * 1 < 0 := by linarith
+      exact mul_neg_of_neg_of_pos this hK
+    rw [PgVerif.Quad.stable_minus_linear _ _ _ hx0 hy]
+    rw [div_eq_iff (ne_of_lt hy)]
+    rw [hC1] at hrel ⊢
+    linear_combination (-1) * hrel
+  have h1C : 1 - C ≠ 0 := sub_ne_zero.mpr (Ne.symm hC1)
+  have hx : n * (1 - C) * K ^ 2 ≠ 0 := by positivity
+  apply PgVerif.Quad.stable_minus' (n * (1 - C) * K ^ 2) _ n p (1 / ((1 - C) * K ^ 2 * p)) hx
   · field_simp
     nlinarith [hrel]
   · field_simp
@@ -64,20 +77,37 @@ theorem gab_pressure_loading (nm C K p : ℝ) (hnm : 0 < nm) (hC : 0 < C) (hK : 
         have := mul_pos (pow_pos hK 2) hp; nlinarith
       linarith
 
+/-- non-vacuity, and the instance that was finding S51-C10b: `C = 1` -/
+example : GAB_pressure 1 1 (2 / 5) (GAB_loading 1 1 (2 / 5) 1) = 1 :=
+  gab_pressure_loading 1 1 (2 / 5) 1 (by norm_num) (by norm_num) (by norm_num) (by norm_num) (by norm_num)
+
 theorem gab_zero (nm C K : ℝ) : GAB_loading nm C K 0 = 0 := by
   rw [PgVerif.Tie.gab_loading]; simp [gab]
 
-/-- the zero point of the inverse: at loading 0 both the numerator and the denominator of the quadratic
-formula vanish (IEEE: 0/0 = NaN, which `nan_to_num` maps to 0 — the value the property asks for) -/
+/-- the zero point of the inverse: at loading 0 the branch `y = -n_m C K < 0` is taken and the quotient is a genuine
+`(2 · 0) / (2 n_m C K)` with a non-zero denominator (no `0/0`, no NaN; the textbook form was `0/0` here and relied on `nan_to_num`) -/
 theorem gab_pressure_zero_point (nm C K : ℝ) (hnm : 0 < nm) (hC : 0 < C) (hK : 0 < K) :
     let x := (0 : ℝ) * (1 - C) * K ^ 2
     let y := ((0 : ℝ) * (C - 2) - nm * C) * K
-    (-y - Real.sqrt (y ^ 2 - 4 * x * 0) = 0) ∧ 2 * x = 0 := by
+    y < 0 ∧ Real.sqrt (y ^ 2 - 4 * x * 0) - y ≠ 0 ∧ GAB_pressure nm C K 0 = 0 := by
   simp only []
-  constructor
-  · have : ((0 * (C - 2) - nm * C) * K) ^ 2 - 4 * (0 * (1 - C) * K ^ 2) * 0 = (nm * C * K) ^ 2 := by ring
-    rw [this, Real.sqrt_sq (by positivity)]; ring
-  · ring
+  have hy : ((0 : ℝ) * (C - 2) - nm * C) * K < 0 := by
+    have : (0 : ℝ) * (C - 2) - nm * C < 0 := by nlinarith [mul_pos hnm hC]
+    exact mul_neg_of_neg_of_pos this hK
+  have hs := Real.sqrt_nonneg ((((0 : ℝ) * (C - 2) - nm * C) * K) ^ 2 - 4 * (0 * (1 - C) * K ^ 2) * 0)
+  refine ⟨hy, by linarith, ?_⟩
+  unfold GAB_pressure nanToZero
+  simp only []
+  rw [if_pos hy, mul_zero, zero_div]
+
+/-- pressure(loading(p)) = p on the whole validity range, zero point included -/
+theorem gab_pressure_loading_nonneg (nm C K p : ℝ) (hnm : 0 < nm) (hC : 0 < C) (hK : 0 < K)
+    (hp : 0 ≤ p) (hpole : K * p < 1) :
+    GAB_pressure nm C K (GAB_loading nm C K p) = p := by
+  rcases hp.eq_or_lt with h0 | hpos
+  · rw [← h0, gab_zero]
+    exact (gab_pressure_zero_point nm C K hnm hC hK).2.2
+  · exact gab_pressure_loading nm C K p hnm hC hK hpos hpole
 
 theorem gab_strictMonoOn (nm C K : ℝ) (hnm : 0 < nm) (hC : 0 < C) (hK : 0 < K) :
     StrictMonoOn (GAB_loading nm C K) {p | 0 ≤ p ∧ K * p < 1} := by
